@@ -1,4 +1,5 @@
 import BarterModel.Lemmas.TearSheet
+import BarterModel.Lemmas.KernelsAgree.Metric
 /-!
 # C16 — Tear-sheet PnL, win rate and profit factor match the closed positions
 
@@ -253,5 +254,22 @@ example : (engineSummary 2 3 [.position 0 w1, .balance 2 ⟨5, ⟨10, 4⟩⟩,
     .balance 2 ⟨3, ⟨7, 7⟩⟩]).assets.map (·.balanceEnd) = [none, none, some ⟨10, 4⟩] := by decide +kernel
 example : (directSummary 2 3 [.position 0 w1, .balance 2 ⟨5, ⟨10, 4⟩⟩,
     .balance 2 ⟨3, ⟨7, 7⟩⟩]).assets.map (·.balanceEnd) = [none, none, some ⟨7, 7⟩] := by decide +kernel
+
+/-- **Tie to the source by translation.** `calculate_pnl_return` (position.rs), `WinRate::calculate`
+(metric/win_rate.rs) and `ProfitFactor::calculate` (metric/profit_factor.rs) are regenerated from
+the current source by `tools/rust2lean.py` on every run, and the generated definitions equal the
+model's for all arguments (the source returns the one-field structs `WinRate { value }` /
+`ProfitFactor { value }`, the model the value). A change of one of these kernels in the source makes
+this theorem fail to build. -/
+theorem kernels_agree_with_source :
+    (∀ pnlRealised priceEntryAverage quantityAbsMax : Rat,
+        BarterModel.Generated.calculate_pnl_return pnlRealised priceEntryAverage quantityAbsMax
+          = calculatePnlReturn pnlRealised priceEntryAverage quantityAbsMax)
+    ∧ (∀ wins total : Rat,
+        (BarterModel.Generated.WinRate.calculate wins total).map (·.value) = WinRate.calculate wins total)
+    ∧ (∀ profitsGrossAbs lossesGrossAbs : Rat,
+        (BarterModel.Generated.ProfitFactor.calculate profitsGrossAbs lossesGrossAbs).map (·.value)
+          = ProfitFactor.calculate profitsGrossAbs lossesGrossAbs) :=
+  BarterModel.KernelsAgree.metric_kernels_agree
 
 end BarterModel.Props.C16
